@@ -1,7 +1,7 @@
 #!/usr/bin/env python3
 """Development triage of stored seeded changes, several at a time, WITHOUT touching /repo:
 
-  tools/par_eval.py [--slots N] [--tier quick] [--checks own|all|C01,C02] [--only r3] [--names a,b,c] [--record]
+  tools/par_eval.py [--slots N] [--base K] [--tier quick] [--checks own|all|C01,C02] [--only r3] [--names a,b,c|/abs/path.diff] [--record]
 
 Each slot owns a private git worktree of /repo (under /tmp/pe/repo_<i>) and a private copy of /verif (under /tmp/pe/verif_<i>,
 without build output) whose executor path-dependency points at that worktree. For each seed the patch is applied to the slot's
@@ -58,8 +58,14 @@ def worker(i, q, results, tier, checks_mode, record):
             name = q.get_nowait()
         except queue.Empty:
             return
-        d = os.path.join(VERIF, "seeded", name)
-        meta = json.load(open(os.path.join(d, "meta.json")))
+        if name.startswith("/"):
+            d = None
+            meta = {"property": (checks_mode.split(",")[0] if checks_mode not in ("own", "all") else "C01")}
+            patch = name
+        else:
+            d = os.path.join(VERIF, "seeded", name)
+            meta = json.load(open(os.path.join(d, "meta.json")))
+            patch = os.path.join(d, "patch.diff")
         if checks_mode == "own":
             checks = [meta["property"]]
         elif checks_mode == "all":
@@ -67,7 +73,7 @@ def worker(i, q, results, tier, checks_mode, record):
         else:
             checks = checks_mode.split(",")
         sh("git checkout -- .", cwd=repo)
-        rc, o = sh("git apply %s" % os.path.join(d, "patch.diff"), cwd=repo)
+        rc, o = sh("git apply %s" % patch, cwd=repo)
         if rc != 0:
             results.append((name, "-", "APPLY-FAILED", 0, ""))
             continue
@@ -98,12 +104,15 @@ def worker(i, q, results, tier, checks_mode, record):
                                                           "note": "private worktree (tools/par_eval.py)"})
         finally:
             sh("git checkout -- .", cwd=repo)
-        if record:
+        if record and d:
             json.dump(meta, open(os.path.join(d, "meta.json"), "w"), indent=1)
 
 
 def main():
     args = sys.argv[1:]
+    if "--help" in args or "-h" in args:
+        print(__doc__)
+        return
     slots = int(args[args.index("--slots") + 1]) if "--slots" in args else 4
     tier = args[args.index("--tier") + 1] if "--tier" in args else "quick"
     checks_mode = args[args.index("--checks") + 1] if "--checks" in args else "own"
